@@ -447,6 +447,24 @@ def census(ses, rep, fs):
                         "TokenType::Whitespace is built only by create_newline_trivia (format_token's pass-through arm is shown unreachable by K4)", nontrivial=False)
                 if not ok:
                     flagged.append((f"census/{fs}/{f.name}/Whitespace", f"{f.name} builds a TokenType::Whitespace token of its own", "site", {"function": f.name}))
+            if f.name == "format_token":
+                # format_token's own Whitespace aggregate is the pass-through arm: its text is the matched token's, never a literal
+                for m_ in re.finditer(r"= (?:full_moon::tokenizer::)?TokenType::Whitespace \{ characters: (?:move|copy) (_\d+)", f.text):
+                    seen_, todo_, const_ = set(), [m_.group(1)], None
+                    while todo_ and len(seen_) < 12:
+                        v_ = todo_.pop()
+                        if v_ in seen_:
+                            continue
+                        seen_.add(v_)
+                        for rhs in re.findall(r"^\s*" + v_ + r" = (.*)$", f.text, re.M):
+                            c_ = re.search(r'const "((?:[^"\\]|\\.)*)"', rhs)
+                            if c_:
+                                const_ = c_.group(1)
+                            todo_ += [x for x in re.findall(r"(?:move|copy) (_\d+)", rhs) if "((" not in rhs.split(x)[0][-3:]]
+                    r_ = "sat" if const_ is not None else "unsat"
+                    rep.add(f"census/{fs}/format_token/Whitespace-text-is-the-input-token's", r_, "the Whitespace token format_token builds carries the matched token's text, not a literal", nontrivial=False)
+                    if const_ is not None:
+                        flagged.append((f"census/{fs}/format_token/Whitespace-literal", f"format_token builds white space from the literal {const_!r} instead of the configured line ending / indent", "site", {"function": "format_token"}))
             for bb, sts in f.blocks.items():
                 for s in sts:
                     txt = s[2] if s[0] == "call" else None
@@ -922,6 +940,21 @@ def run(ses, rep):
             rep.add(oid, st, f"{what}; native: {v}")
         else:
             rep.add(oid, "inconclusive", f"{what}: the whitespace battery shows no violation on the native build")
+
+
+def fallback(rep):
+    """kernels undecided: the whitespace battery and the text batteries are run; only reproduced violations are reported"""
+    fails = battery()[:3]
+    for kind in ("StringLiteral", "MultiLineComment"):
+        v, rec = text_battery(kind)
+        if v:
+            fails.append((v, rec))
+    v, rec = replay_multi_config()
+    if v:
+        fails.append((v, {"replay_kind": "multi-config", **rec}))
+    for i, (v, rec) in enumerate(fails):
+        st = rep.violation({"obligation": "battery-after-undecided-kernel", "n": i}, {"what": "kernel undecided; whitespace battery", "observed": v, **rec})
+        rep.add(f"battery/{i}", st, v)
 
 
 def replay(path):
